@@ -552,6 +552,38 @@ async fn faults(r: &mut Rng) -> (String, String) {
     let sig = format!("faults:k{kind}:{}", if sub_ms { "subms" } else { "ms" });
     let ca = cfg(r, Some(timeout));
     let mut cb = cfg(r, Some(timeout));
+    if kind < 6 && r.chance(1, 8) {
+        // the fault hits the handshake: one direction is silent (its writer never becomes ready, or its frames vanish) while
+        // the other one works; creating the multiplexer must fail with a timeout on BOTH sides within the configured time
+        let sig = format!("faults:handshake:{}", if sub_ms { "subms" } else { "ms" });
+        let net = crate::transport::Net::new(true);
+        let variant = r.below(2);
+        if variant == 0 {
+            net.a2b.set_sink_ready(false);
+        } else {
+            net.a2b.silence_after_now();
+        }
+        let a = tokio::spawn(chmux::ChMux::new(ca, net.a2b.sink(), net.b2a.stream()));
+        let b = tokio::spawn(chmux::ChMux::new(cb, net.b2a.sink(), net.a2b.stream()));
+        let limit = timeout.max(Duration::from_millis(1)) * 3 + Duration::from_millis(10);
+        tokio::time::sleep(limit).await;
+        quiesce().await;
+        for (name, t) in [("A (whose outgoing direction is stalled)", a), ("B", b)] {
+            if variant == 1 && name != "B" {
+                // A's frames are accepted by its transport and vanish: A cannot know; only B has to notice
+                continue;
+            }
+            if !t.is_finished() {
+                return (sig, format!("FAIL: C06 creating multiplexer {name} still hangs {limit:?} after the start although the connection timeout is {timeout:?} (handshake variant {variant})"));
+            }
+            match t.await {
+                Ok(Err(_)) => {}
+                Ok(Ok(_)) => return (sig, format!("FAIL: C06 handshake of {name} succeeded over a silent direction")),
+                Err(_) => return (sig, "FAIL: C06 panic during the handshake".into()),
+            }
+        }
+        return (sig, "ok".into());
+    }
     if kind == 6 && r.chance(2, 3) {
         // the endpoints configure different timeouts (or one of them none): each must ping at the rate the OTHER one needs
         cb.connection_timeout = *r.pick(&[None, Some(Duration::from_millis(7)), Some(Duration::from_millis(300)), Some(Duration::from_secs(60))]);
@@ -654,7 +686,31 @@ async fn faults(r: &mut Rng) -> (String, String) {
     if let Ok(Ok(())) = accept_task.await {
         return (sig, "FAIL: C06 pending accept returned a port or a clean end after the fault".into());
     }
-    // operations started afterwards fail as well
+    // operations started afterwards fail as well -- and keep failing: a receiver whose remote sender was never dropped
+    // must not turn the lost connection into an end-of-stream on a later call
+    {
+        let mut errors = 0;
+        for _ in 0..60 {
+            // (awaited up to quiescence: returning credits may take a helper task's turn)
+            match tokio::time::timeout(Duration::from_nanos(1), rb.recv()).await.ok() {
+                Some(Ok(Some(_))) => {
+                    if errors > 0 {
+                        return (sig, "FAIL: C06 a receiver delivered data after it had reported the connection failure".into());
+                    }
+                }
+                Some(Ok(None)) => {
+                    return (sig, format!("FAIL: C06 a receiver reports end-of-stream after the connection failed ({errors} errors reported before), although its remote sender was never dropped"));
+                }
+                Some(Err(_)) => {
+                    errors += 1;
+                    if errors >= 3 {
+                        break;
+                    }
+                }
+                None => return (sig, "FAIL: C06 recv is pending after the dispatcher ended".into()),
+            }
+        }
+    }
     if a_client.connect().now_or_never().map(|r| r.is_ok()).unwrap_or(true) {
         // a connect that stays pending or succeeds after the dispatcher ended
         quiesce().await;
